@@ -156,8 +156,7 @@ FIRST_MISSED = {
     'c11-x': 'NOT ANSWERED in this session: `cd link/..` where link is a symbolic link to a directory (needs symbolic '
              'links in the cd vocabulary and in the reference state machine)',
     'c11-y': 'every third case gives the action a transformation of its output (same process, same environment)',
-    'c11-z': 'NOT ANSWERED in this session: an environment set that has become EMPTY (needs Exactly started with a '
-             'minimal environment and every variable unset)',
+    'c11-z': 'kind `empty-set`: Exactly started with a minimal environment that the case unsets completely (act / non-act / both)',
     'c12-x': 'kind H: -rel-here in suite and case files named by relative paths with a directory part, from other directories',
     'c12-y': 'kind H: -rel-here in files included two and three levels deep through sub directories',
     'c13-x': 'NOT ANSWERED in this session: a source that answers differently on its second reading (the transformer '
